@@ -6,7 +6,10 @@ import NibabelModel.Lemmas.C03_Parrec
 import NibabelModel.Lemmas.C03_Afni
 import NibabelModel.Lemmas.C03_EcatRows
 import NibabelModel.Generated.C03Parrec
+import NibabelModel.Generated.C03Ecat
 import NibabelModel.Props.C06
+import NibabelModel.Model.C03_Hist
+import NibabelModel.Lemmas.C03_Hist
 /-! Props/C03 — array proxies: scaling applied pointwise; partial reads equal slicing.
     (statements + short proofs; helper lemmas live in Lemmas/C03*.lean) -/
 namespace Nb.C03
@@ -594,5 +597,168 @@ theorem minc_scale_alongside (nscales : Nat) (shape : List Nat) (idx : List IdxI
 example : npIndex [.int 1, .newaxis, .slice ⟨none, none, some (-1)⟩] [2, 2, 2] .C = .ok ([1, 2, 2], [6, 7, 4, 5]) ∧
     mincScaleSlots 2 [2, 2, 2] [.int 1, .newaxis, .slice ⟨none, none, some (-1)⟩] = .ok ([1, 2, 2], [3, 3, 2, 2]) := by
   decide
+
+/-! ### histories of reads on one proxy; the general heuristic -/
+
+
+/-- HISTORIES OF READS ON ONE PROXY OBJECT (every proxy class: `p` is any pair of read functions of the file).
+    For every history — conversions `np.asarray(proxy)`, partial reads `proxy[idx]` (failing ones included) and
+    in-place edits of ANY array a previous read handed out, in any order and number —
+    (1) the value each read returns is the value of that read ALONE on the file (`readOf`): it depends neither on
+        the reads before it nor on what the caller did to their results;
+    (2) every read returns a NEW array object (`refs = [0, 1, 2, …]`), one per read;
+    (3) an array the caller never edited still holds, at the end of the history, what it held when it was
+        returned — later reads and edits of OTHER results do not reach it.
+    The model of the code is `histStep` (a fresh array per read, no reference kept); `hist_cache_counterexample`
+    shows that (1)–(3) fail for a proxy that keeps and hands out its assembled array. -/
+theorem hist_reads_independent {I R} (p : ProxyFns I R) (steps : List (HStep I R)) :
+    (runHist p steps).snaps = steps.filterMap (HStep.readOf p) ∧
+    (runHist p steps).refs = List.range (runHist p steps).cells.length ∧
+    (runHist p steps).cells.length = (steps.filterMap (HStep.readOf p)).length ∧
+    ∀ k, (∀ s ∈ steps, s.isMutOf k = false) → k < (runHist p steps).cells.length →
+      (runHist p steps).cells[k]? = (runHist p steps).snaps[k]? := by
+  have hinit : HInv (HState.init : HState R) := ⟨rfl, rfl⟩
+  have hinv : HInv (runHist p steps) := foldl_inv p steps HState.init hinit
+  have hsn : (runHist p steps).snaps = steps.filterMap (HStep.readOf p) := by
+    have := foldl_snaps p steps HState.init
+    simpa [runHist, HState.init] using this
+  refine ⟨hsn, hinv.refs, ?_, fun k hk => ?_⟩
+  · rw [← hinv.len, hsn]
+  · exact foldl_kept p k steps HState.init hinit (fun h => absurd h (Nat.not_lt_zero _)) hk
+
+example : (runHist (⟨fun i => i + 10, 7⟩ : ProxyFns Nat Nat) [.arr, .edit 0 (· * 100), .get 5, .arr]).snaps = [7, 15, 7] ∧
+    (runHist (⟨fun i => i + 10, 7⟩ : ProxyFns Nat Nat) [.arr, .edit 0 (· * 100), .get 5, .arr]).cells = [700, 15, 7] := by
+  decide
+
+/-- the specification of one read of a generic proxy: NumPy indexing of the loaded array -/
+def genericSpec {σ ρ β} (f : ρ → σ → σ → β) (raw : Int → ρ) (p : Params σ) :
+    HStep (List IdxItem) (Except Err (List Nat × List β)) → Option (Option (List Nat × List β))
+  | .arr => some (some (p.shape, (List.range p.shape.prod).map (scaledElem f raw p)))
+  | .get idx => some ((npIndex idx p.shape p.order).map (fun r => (r.1, r.2.map (scaledElem f raw p)))).toOption
+  | .edit _ _ => none
+
+/-- GENERIC `ArrayProxy` (NIfTI, Analyze, SPM, MGH, AFNI data part, CIFTI-2 …), shipped heuristic: in every history
+    every conversion returns the whole scaled array and every partial read returns NumPy's indexing of it (or fails
+    where NumPy fails) — whatever was read, refused or edited before. -/
+theorem hist_generic_eq_numpy {σ ρ β} (f : ρ → σ → σ → β) (raw : Int → ρ) (k : Nat) (p : Params σ) (hisz : 0 < p.isz)
+    (steps : List (HStep (List IdxItem) (Except Err (List Nat × List β))))
+    (hv : ∀ idx, HStep.get idx ∈ steps → ∀ s, IdxItem.slice s ∈ idx → s.Valid) :
+    (runHist (genericFns f raw (thresholdHeuristic k) p) steps).snaps.map Except.toOption =
+      steps.filterMap (genericSpec f raw p) := by
+  rw [(hist_reads_independent _ steps).1, List.map_filterMap]
+  apply filterMap_congr_mem
+  intro s hs
+  cases s with
+  | arr => simp [HStep.readOf, genericSpec, genericFns, proxyArray_eq, Except.toOption]
+  | get idx =>
+      simp only [HStep.readOf, genericSpec, genericFns, Option.map_some]
+      rw [getitem_eq_index_of_array_total f raw k p idx hisz (hv idx hs)]
+  | edit j g => rfl
+
+/-- `proxy[idx] = np.asarray(proxy)[idx]` for EVERY read heuristic that `optimize_slicer` accepts (one that never
+    answers `contiguous` for an integer index — otherwise `optimize_slicer` raises `ValueError`, C06
+    `optimizeSlicer_error_iff`): the hypothesis "fileslice = npIndex" of `getitem_eq_index_of_array` is DISCHARGED by
+    C06's `fileslice_eq_numpy`.  Up to the kind of exception, as `getitem_eq_index_of_array_total`. -/
+theorem getitem_eq_index_of_array_heuristic {σ ρ β} (f : ρ → σ → σ → β) (raw : Int → ρ) (h : Heuristic)
+    (hh : ∀ i n st, h (.int i) n st ≠ .contiguous)
+    (p : Params σ) (idx : List IdxItem) (hisz : 0 < p.isz)
+    (hv : ∀ s, IdxItem.slice s ∈ idx → s.Valid) :
+    (getScaled f raw h p idx).toOption =
+      ((npIndex idx p.shape p.order).map (fun r => (r.1, r.2.map (scaledElem f raw p)))).toOption := by
+  cases hc : canonLoop false idx p.shape with
+  | ok items =>
+      rw [getitem_eq_index_of_array f raw h p idx items hc
+        (fun _ => fileslice_eq_numpy h hh idx p.shape hv p.order p.isz p.off p.flen hisz (Nat.le_refl _))]
+  | error e =>
+      have hl : getScaled f raw h p idx = .error e := by
+        simp [getScaled, getUnscaled, hc, Except.map]
+      rw [hl]
+      cases hn : npIndex idx p.shape p.order with
+      | error e' => rfl
+      | ok r =>
+          exfalso
+          unfold npIndex at hn
+          cases ht : canonicalSlicers idx p.shape with
+          | error e'' => simp [ht, bind, Except.bind] at hn
+          | ok its =>
+              obtain ⟨its', h'⟩ := canonLoop_false_ok idx p.shape its ht
+              rw [hc] at h'; cases h'
+
+
+example : (runHist (genericFns (fun (x s i : Int) => x * s + i) id (thresholdHeuristic 256)
+      (⟨[2, 3], 2, 352, .F, 2, 1⟩ : Params Int))
+    [.get [.int 9], .arr, .edit 1 (Except.map (fun r => (r.1, r.2.map (· * 0)))), .get [.int 1, .slice ⟨none, none, some (-1)⟩]]).snaps
+    = [.error .index, .ok ([2, 3], [1, 3, 5, 7, 9, 11]), .ok ([3], [11, 7, 3])] := by decide
+
+example : (∀ i n st, (fun _ _ _ => Action.skip : Heuristic) (.int i) n st ≠ .contiguous) ∧
+    getScaled (fun (x s i : Int) => x * s + i) id (fun _ _ _ => Action.skip) (⟨[2, 3], 2, 352, .F, 2, 1⟩ : Params Int)
+      [.int 1, .slice ⟨none, none, some (-1)⟩] = .ok ([3], [11, 7, 3]) :=
+  ⟨fun _ _ _ h => Action.noConfusion h, by decide⟩
+
+
+/-- ECAT: in every history every conversion is the frames stacked through the matrix list and every partial read is
+    NumPy's indexing of that stack, each voxel with the scale factor of its own frame (`ecat_frames_by_row`) —
+    whatever was read or edited before on the same proxy. -/
+theorem hist_ecat_eq_numpy (rowOf : Nat → Nat) (shape3 : List Nat) (T : Nat)
+    (steps : List (HStep (List IdxItem) (Except Err (List Nat × List (Option Nat))))) :
+    (runHist (ecatFns rowOf shape3 T) steps).snaps = steps.filterMap (HStep.readOf (ecatFns rowOf shape3 T)) ∧
+    (ecatFns rowOf shape3 T).array =
+      .ok (shape3 ++ [T], (List.range (shape3.prod * T)).map (fun q => some (rowElem rowOf shape3.prod q))) ∧
+    ∀ idx r, (∀ s, IdxItem.slice s ∈ idx → s.Valid) → npIndex idx (shape3 ++ [T]) .F = .ok r →
+      (ecatFns rowOf shape3 T).getitem idx = .ok (r.1, r.2.map (fun q => some (rowElem rowOf shape3.prod q))) := by
+  refine ⟨?_, ?_, fun idx r hv hnp => (ecat_frames_by_row rowOf shape3 T idx r hv hnp).1⟩
+  · have hinit : HInv (HState.init : HState (Except Err (List Nat × List (Option Nat)))) := ⟨rfl, rfl⟩
+    have := foldl_snaps (ecatFns rowOf shape3 T) steps HState.init
+    simpa [runHist, HState.init] using this
+  · have h2 := (ecat_frames_by_row rowOf shape3 T [] (shape3 ++ [T], List.range (shape3 ++ [T]).prod)
+      (by intro s hs; cases hs) (npIndex_whole [] _ .F rfl)).2.1
+    simp only [ecatFns, h2, List.map_map]
+    rfl
+
+def exEdit : Except Err (List Nat × List (Option Nat)) → Except Err (List Nat × List (Option Nat)) :=
+  Except.map (fun r => (r.1, r.2.map (fun o => o.map (· + 100))))
+
+/-- THE CACHING VARIANT IS OBSERVABLY DIFFERENT (the class of defect: `__array__` keeps the assembled volume in
+    `self._data`, returns that object, `__getitem__` answers from it).  `a = np.asarray(proxy); a += 100`:
+    the next partial read and the next conversion show the edited numbers; two conversions return the SAME object, so
+    editing the second changes the first; the code's model shows the file's numbers and keeps results apart.
+    Without a conversion first the variant behaves like the code — a single read cannot tell them apart. -/
+theorem hist_cache_counterexample :
+    (runHistCached (indexCached none) (ecatFns id [2, 1, 1] 2) [.arr, .edit 0 exEdit, .get [.ellipsis, .int 1]]).snaps[1]?
+      = some (.ok ([2, 1, 1], [some 102, some 103])) ∧
+    (runHist (ecatFns id [2, 1, 1] 2) [.arr, .edit 0 exEdit, .get [.ellipsis, .int 1]]).snaps[1]?
+      = some (.ok ([2, 1, 1], [some 2, some 3])) ∧
+    (runHistCached (indexCached none) (ecatFns id [2, 1, 1] 2) [.arr, .edit 0 exEdit, .arr]).snaps[1]?
+      = some (.ok ([2, 1, 1, 2], [some 100, some 101, some 102, some 103])) ∧
+    (runHistCached (indexCached none) (ecatFns id [2, 1, 1] 2) [.arr, .arr, .edit 1 exEdit]).refs = [0, 0] ∧
+    (runHistCached (indexCached none) (ecatFns id [2, 1, 1] 2) [.arr, .arr, .edit 1 exEdit]).unchanged = [false, false] ∧
+    (runHist (ecatFns id [2, 1, 1] 2) [.arr, .arr, .edit 1 exEdit]).unchanged = [true, false] ∧
+    (runHistCached (indexCached none) (ecatFns id [2, 1, 1] 2) [.get [.ellipsis, .int 1], .arr]).snaps
+      = (runHist (ecatFns id [2, 1, 1] 2) [.get [.ellipsis, .int 1], .arr]).snaps := by
+  refine ⟨by decide, by decide, by decide, by decide, by decide, by decide, by decide⟩
+
+
+example : (runHist (ecatFns (fun i => (frameOrder [16842755, 16842753, 16842754]).getD i 0) [2, 1, 1] 3)
+    [.arr, .edit 0 exEdit, .get [.ellipsis, .int (-1), .newaxis]]).snaps[1]? = some (.ok ([2, 1, 1, 1], [some 0, some 1])) := by
+  decide
+
+/-! ### ECAT: `get_frame_order` as found in the source -/
+
+/-- SOURCE TIE (ECAT).  The pieces of `get_frame_order` that decide which directory row is frame `i` — the id column,
+    the validity test (`ids > 0`), the replacement of invalid ids (`ids[ids <= 0] = ids.max() + 1`), the cut at
+    `n_valid` — and the field of a `frame_mapping` entry that all three `data_from_fileobj` call sites of the proxy use,
+    translated by `regen()` from the working tree (`Generated/C03Ecat.lean`), ARE those of the model `frameOrder`
+    (which `ecat_frame_order_sorted` and, through `rowOf`, `ecat_frames_by_row` / `hist_ecat_eq_numpy` speak about).
+    (`np.argsort` itself stays modelled as a stable insertion sort; for a directory whose VALID ids are distinct the
+    tie-breaking among the equal replaced invalid ids is cut off by `n_valid`.) -/
+theorem ecat_frame_order_from_source (ids : List Int) :
+    Nb.Gen.C03.ecatEffIds ids = effIds ids ∧
+    Nb.Gen.C03.ecatNValid ids = (ids.filter (fun v => decide (0 < v))).length ∧
+    frameOrder ids = ((isort idLe (Nb.Gen.C03.ecatEffIds ids).zipIdx).map (·.2)).take (Nb.Gen.C03.ecatNValid ids) ∧
+    Nb.Gen.C03.ecatIdColumn = 0 ∧ Nb.Gen.C03.ecatRowField = 0 :=
+  ⟨rfl, rfl, rfl, rfl, rfl⟩
+
+example : Nb.Gen.C03.ecatEffIds [16842755, 0, 16842753, -4] = [16842755, 16842756, 16842753, 16842756] ∧
+    Nb.Gen.C03.ecatNValid [16842755, 0, 16842753, -4] = 2 ∧ frameOrder [16842755, 0, 16842753, -4] = [2, 0] := by decide
 
 end Nb.C03
